@@ -62,30 +62,15 @@ def hint_model(h, reg: Registry):
         return hint_model(h.__supertype__, reg)
     if isinstance(h, type) and not isinstance(h, types.GenericAlias):
         if getattr(h, '_is_protocol', False) or any(T.get_origin(b) is not None for b in getattr(h, '__orig_bases__', ())):
-            # protocols and unsubscripted user generics: `isinstance(<assignment expression>, C)` (and the erased
-            # pseudo-superclasses' origins, which C subclasses anyway). MEANING = the class; the code SHAPE is not modelled.
-            STANDIN[0] += 1
-            return ['shallow', reg.id(h)]
+            # protocols and unsubscripted user generics: Hint.generic — `isinstance(<assignment expression>, C)` and then
+            # every unerased pseudo-superclass checked on the variable
+            return generic_model(h, (), reg)
         return ['cls', reg.id(h)]
     origin, args = T.get_origin(h), T.get_args(h)
     if isinstance(origin, type) and hasattr(origin, '__orig_bases__') \
             and origin.__module__ not in ('typing', 'collections.abc', 'collections', 'builtins'):
-        # subscripted user generic `Box[int]` with `class Box(list[T])`: an instance of Box that satisfies the
-        # unerased pseudo-superclass `list[int]`. MEANING = Annotated[list[int], IsInstance[Box]]; the code SHAPE
-        # (isinstance first, then the pseudo-superclasses on the variable) is not modelled.
-        STANDIN[0] += 1
-        params = getattr(origin, '__parameters__', None) or tuple(
-            dict.fromkeys(p for b in origin.__orig_bases__ for p in getattr(b, '__parameters__', ())))
-        sub = dict(zip(params, args))
-        bases = [b for b in origin.__orig_bases__ if T.get_origin(b) not in (None, T.Generic, T.Protocol)]
-        if not bases:
-            return ['shallow', reg.id(origin)]
-        if len(bases) > 1:
-            raise NotImplementedError(repr(h))
-        bp = getattr(bases[0], '__parameters__', ())
-        base = bases[0][tuple(sub.get(p, T.Any) for p in bp)] if bp else bases[0]
-        bm = hint_model(base, reg)
-        return ['ann', bm, ['inst', str(reg.id(origin))]]
+        # subscripted user generic `Box[int]` with `class Box(list[T])`: Hint.generic Box [list[int]]
+        return generic_model(origin, args, reg)
     if is_union(h):
         return union_model([hint_model(a, reg) for a in union_members(h)])
     if origin is T.Literal:
@@ -127,6 +112,26 @@ def hint_model(h, reg: Registry):
     if origin is not None and isinstance(origin, type):
         return ['shallow', reg.id(origin)]             # Iterator[T], Generator[...], Callable[...], ItemsView[...], typing.List, …
     raise NotImplementedError(repr(h))
+
+
+def generic_model(origin, args, reg: Registry):
+    """Hint.generic: the generic's class and its unerased pseudo-superclasses with the type arguments substituted."""
+    params = getattr(origin, '__parameters__', None) or tuple(
+        dict.fromkeys(p for b in getattr(origin, '__orig_bases__', ()) for p in getattr(b, '__parameters__', ())))
+    sub = dict(zip(params, args))
+    out = ['generic', reg.id(origin)]
+    for b in getattr(origin, '__orig_bases__', ()):
+        bo = T.get_origin(b)
+        if bo in (None, T.Generic, T.Protocol):
+            continue
+        if isinstance(bo, type) and bo.__module__ not in ('typing', 'collections.abc', 'collections', 'builtins'):
+            raise NotImplementedError(repr(origin))      # generic deriving from a user generic: bases are walked transitively
+        bp = getattr(b, '__parameters__', ())
+        base = b[tuple(sub.get(p, p) for p in bp)] if bp else b
+        bm = hint_model(base, reg)
+        if bm != ['any']:
+            out.append(bm)
+    return out
 
 
 def shallow_reduce(a):
